@@ -8,10 +8,16 @@ namespace Qmc.Proto
 def parseNat (s : String) : Nat := s.toNat?.getD 0
 def parseInt (s : String) : Int := s.toInt?.getD 0
 
-/-- `num/den` (den > 0) or a plain integer. -/
+/-- a denominator: a plain natural, or `2^k` (the harness prints tiny binary64 values that way) -/
+def parseDen (d : String) : Nat :=
+  match d.splitOn "^" with
+  | ["2", k] => 2 ^ parseNat k
+  | _ => parseNat d
+
+/-- `num/den` (den > 0; `den` may be written `2^k`) or a plain integer. -/
 def parseRat (s : String) : Rat :=
   match s.splitOn "/" with
-  | [n, d] => mkRat (parseInt n) (parseNat d)
+  | [n, d] => mkRat (parseInt n) (parseDen d)
   | [n] => (parseInt n : Rat)
   | _ => 0
 
@@ -28,7 +34,10 @@ def parseInts := parseList parseInt
 def showBits (bs : List Bool) : String :=
   if bs.isEmpty then "-" else String.ofList (bs.map fun b => if b then '1' else '0')
 
-def showRat (r : Rat) : String := s!"{r.num}/{r.den}"
+/-- `num/den`; a power-of-two denominator of 2^127 or more is written `2^k`, as the harness' `rat()` does -/
+def showRat (r : Rat) : String :=
+  let k := r.den.log2
+  if 127 ≤ k && r.den == 2 ^ k then s!"{r.num}/2^{k}" else s!"{r.num}/{r.den}"
 
 def showList (f : α → String) (xs : List α) : String :=
   if xs.isEmpty then "-" else String.intercalate "," (xs.map f)
